@@ -223,6 +223,21 @@ def sym_log(x):
 
 def sym_pow(x, a):
     """x**a for x>0 (real exponent) as a UF with the power laws."""
+    if isinstance(x, float) and math.isinf(x) and x > 0:
+        if V.is_sym(a):
+            s = a._sign_vs_zero()
+        else:
+            s = (a > 0) - (a < 0)
+        if s == 0:
+            return 1.0
+        return x if s > 0 else 0.0
+    if not V.is_sym(x) and x == 0:
+        s = a._sign_vs_zero() if V.is_sym(a) else (a > 0) - (a < 0)
+        if s > 0:
+            return 0.0
+        if s == 0:
+            return 1.0
+        raise ZeroDivisionError("0.0 cannot be raised to a negative power")
     tx = z3.simplify(term_of(x))
     ta = z3.simplify(term_of(a))
     ca = concrete_value(ta)
